@@ -35,7 +35,8 @@ type Reset struct {
 }
 
 type Traverse struct {
-	Mode   string // remap | mark
+	Loop   int    // stepmark: the loop whose iteration handles one element of Param
+	Mode   string // remap | mark | stepmark
 	Param  string
 	Handle string
 	Expr   string
@@ -50,7 +51,7 @@ func (e *Engine) hasHandle(t types.Type, h types.Type, depth int) bool {
 	if depth > 6 {
 		return false
 	}
-	if types.Identical(t, h) {
+	if sameHandle(t, h) {
 		return true
 	}
 	switch u := t.Underlying().(type) {
@@ -80,6 +81,18 @@ func (e *Engine) hasHandle(t types.Type, h types.Type, depth int) bool {
 	return false
 }
 
+// sameHandle: the handle type itself, or (for slice-typed handles such as
+// ir.Block) any type with the identical underlying slice type.
+func sameHandle(t, h types.Type) bool {
+	if types.Identical(t, h) {
+		return true
+	}
+	if _, ok := h.Underlying().(*types.Slice); ok {
+		return types.Identical(t.Underlying(), h.Underlying())
+	}
+	return false
+}
+
 type travGen struct {
 	e       *Engine
 	tr      Traverse
@@ -92,6 +105,17 @@ type travGen struct {
 
 func (g *travGen) mapOf(old string) string {
 	return "(" + strings.ReplaceAll(g.tr.Expr, "$", old) + ")"
+}
+
+// rd wraps a read of the traversed input: post-conditions of a marking
+// traversal talk about the input as it was on entry (it may be reachable
+// through a pointer and the function may call code that is summarised by a
+// havoc).
+func (g *travGen) rd(path string) string {
+	if g.tr.Mode == "mark" {
+		return "old(" + path + ")"
+	}
+	return path
 }
 
 // walk emits the clauses for the value at `in` (input path) / `out` (result
@@ -121,17 +145,22 @@ func (g *travGen) walk(t types.Type, in, out, cond, condIn, label string, depth 
 		}
 		return
 	}
-	if types.Identical(t, g.h) {
+	if sameHandle(t, g.h) {
 		if g.tr.Mode == "remap" {
 			add("trav:"+label, out+" == "+g.mapOf(in))
 		} else {
-			add("trav:"+label, g.mapOf(in))
+			add("trav:"+label, g.mapOf(g.rd(in)))
 		}
 		return
 	}
 	switch u := t.Underlying().(type) {
 	case *types.Pointer:
 		if !types.Identical(u.Elem(), g.h) {
+			if _, isStruct := u.Elem().Underlying().(*types.Struct); isStruct && g.tr.Mode != "remap" {
+				// a pointer to a struct: its fields are reached through the pointer
+				g.walk(u.Elem(), in, out, joinCond(cond, g.rd(in)+" != nil"), joinCond(condIn, in+" != nil"), label, depth+1)
+				return
+			}
 			g.skipped = append(g.skipped, label+" (pointer to "+typeShort(u.Elem())+")")
 			return
 		}
@@ -141,10 +170,22 @@ func (g *travGen) walk(t types.Type, in, out, cond, condIn, label string, depth 
 			add("trav:"+label, in+" != nil ==> "+out+" != nil && *"+out+" == "+g.mapOf("old(*"+in+")"))
 			add("frame:"+label, in+" != nil ==> *"+in+" == old(*"+in+")")
 		} else {
-			add("trav:"+label, in+" != nil ==> "+g.mapOf("*"+in))
+			add("trav:"+label, g.rd(in)+" != nil ==> "+g.mapOf(g.rd("*"+in)))
 		}
 	case *types.Slice:
 		if !types.Identical(u.Elem(), g.h) {
+			if est, ok := u.Elem().Underlying().(*types.Struct); ok && g.tr.Mode != "remap" {
+				// every element's handle-typed fields (one level)
+				for i := 0; i < est.NumFields(); i++ {
+					ef := est.Field(i)
+					if sameHandle(ef.Type(), g.h) {
+						add("trav:"+label+"[*]."+ef.Name(), "forall j int :: 0 <= j && j < len("+g.rd(in)+") ==> "+g.mapOf(g.rd(in+"[j]."+ef.Name())))
+					} else if e.hasHandle(ef.Type(), g.h, 0) {
+						g.skipped = append(g.skipped, label+"[*]."+ef.Name()+" (nested)")
+					}
+				}
+				return
+			}
 			g.skipped = append(g.skipped, label+" (slice of "+typeShort(u.Elem())+")")
 			return
 		}
@@ -153,7 +194,7 @@ func (g *travGen) walk(t types.Type, in, out, cond, condIn, label string, depth 
 			add("trav:"+label, "forall i int :: 0 <= i && i < len("+in+") ==> "+out+"[i] == "+g.mapOf("old("+in+"[i])"))
 			add("frame:"+label, "forall i int :: 0 <= i && i < len("+in+") ==> "+in+"[i] == old("+in+"[i])")
 		} else {
-			add("trav:"+label, "forall i int :: 0 <= i && i < len("+in+") ==> "+g.mapOf(in+"[i]"))
+			add("trav:"+label, "forall i int :: 0 <= i && i < len("+g.rd(in)+") ==> "+g.mapOf(g.rd(in+"[i]")))
 		}
 	case *types.Struct:
 		for i := 0; i < u.NumFields(); i++ {
@@ -193,7 +234,7 @@ func (g *travGen) walk(t types.Type, in, out, cond, condIn, label string, depth 
 				g.skipped = append(g.skipped, kl+" (pointer implementation)")
 				continue
 			}
-			c2 := joinCond(cond, "is("+in+", "+cn+")")
+			c2 := joinCond(cond, "is("+g.rd(in)+", "+cn+")")
 			cIn2 := joinCond(condIn, "is("+in+", "+cn+")")
 			if g.tr.Mode == "remap" {
 				g.out = append(g.out, Clause{Label: "kind:" + kl, Src: c2 + " ==> is(" + out + ", " + cn + ")"})
@@ -321,6 +362,25 @@ func (e *Engine) derived(fn *ssa.Function, ctr *Contract) (req, ens []Clause) {
 		out := "result"
 		if tr.Mode == "mark" {
 			out = tr.Param
+		}
+		if tr.Mode == "stepmark" {
+			sl, ok := pt.Underlying().(*types.Slice)
+			if !ok {
+				panic("traverse stepmark: " + tr.Param + " is not a slice")
+			}
+			el := "prev(" + tr.Param + "[rangeindex+1])"
+			g.walk(sl.Elem(), el, el, "", "", "", 0)
+			if e.derivedSteps == nil {
+				e.derivedSteps = map[*Contract]map[int][]Clause{}
+			}
+			if e.derivedSteps[ctr] == nil {
+				e.derivedSteps[ctr] = map[int][]Clause{}
+			}
+			e.derivedSteps[ctr][tr.Loop] = append(e.derivedSteps[ctr][tr.Loop], g.out...)
+			for _, s := range g.skipped {
+				e.noteAssumed(fmt.Sprintf("traverse %s %s in %s: path not covered: %s", tr.Mode, tr.Handle, name, s))
+			}
+			continue
 		}
 		g.walk(pt, tr.Param, out, "", "", "", 0)
 		req = append(req, g.req...)
